@@ -22,3 +22,21 @@ for _f in sorted(glob.glob(os.path.join(os.path.dirname(os.path.abspath(__file__
     PROPS[_n] = _m.PROP
     if hasattr(_m, "CLAIM"):
         CLAIMS[_n] = _m.CLAIM
+
+
+def extra_overlay(repo, wd, prop=None):
+    """Overlay entries computed from the CURRENT source at build time.  For properties that set
+    "mutex_rewrite": a copy of storage/memory/peer_store.go in which the type token sync.RWMutex
+    (or sync.Mutex) is replaced by verifRWMutex (defined by the shim zz_verif_sched.go), so that the
+    driver's cooperative scheduler controls the interleaving of the lock-delimited steps."""
+    import os, re
+    rep = {}
+    pdef = PROPS.get(prop or "", {})
+    if pdef.get("mutex_rewrite"):
+        src = os.path.join(repo, "storage", "memory", "peer_store.go")
+        text = open(src).read()
+        text2 = re.sub(r"\bsync\.(RW)?Mutex\b", "verifRWMutex", text)
+        out = os.path.join(wd, "peer_store_sched.go")
+        open(out, "w").write(text2)
+        rep[src] = out
+    return rep
